@@ -7,14 +7,19 @@ import (
 	"crypto/sha256"
 	"encoding/hex"
 	"fmt"
+	"path/filepath"
+	"reflect"
 	"sort"
 	"strconv"
+	"strings"
 
 	api "k8s.io/api/core/v1"
 	networking "k8s.io/api/networking/v1"
 
 	convtypes "github.com/jcmoraisjr/haproxy-ingress/pkg/converters/types"
+	hatypes "github.com/jcmoraisjr/haproxy-ingress/pkg/haproxy/types"
 
+	"verif/harness/lib/fakehaproxy"
 	"verif/harness/lib/hx"
 	"verif/harness/lib/pipeline"
 )
@@ -188,23 +193,86 @@ func coqStep(p *pipeline.Pipeline, o *stepObs, first bool) (string, bool) {
 	return hx.Tuple("KPartial "+w+" "+bt, obs), true
 }
 
+// coqDyn prints the host pairs the dynamic updater compared in this step (hosts present
+// before and after; "other" = every field but the certificate file, hash, CN and expiry,
+// compared with reflect.DeepEqual as checkHostPair does) and what the simulated HAProxy
+// saw: a reload asked for, the files of `set ssl cert`.
+func coqDyn(old, cur map[string]*hatypes.Host, reload bool, ex []fakehaproxy.Exchange) (string, interface{}) {
+	structural := false
+	var names []string
+	for n := range old {
+		if _, ok := cur[n]; !ok {
+			structural = true
+		} else {
+			names = append(names, n)
+		}
+	}
+	for n := range cur {
+		if _, ok := old[n]; !ok {
+			structural = true
+		}
+	}
+	sort.Strings(names)
+	view := func(other, file, hash string) string {
+		return fmt.Sprintf("{| hv_other := %s; hv_file := %s; hv_hash := %s |}", hx.Str(other), hx.Str(file), hx.Str(hash))
+	}
+	var pairs []string
+	var js []string
+	for _, n := range names {
+		o, c := old[n], cur[n]
+		oc := *o
+		oc.TLS.TLSCommonName = c.TLS.TLSCommonName
+		oc.TLS.TLSHash = c.TLS.TLSHash
+		oc.TLS.TLSNotAfter = c.TLS.TLSNotAfter
+		oc.TLS.TLSFilename = c.TLS.TLSFilename
+		other := "same"
+		if !reflect.DeepEqual(&oc, c) {
+			other = "changed"
+		}
+		pairs = append(pairs, hx.Tuple(view("same", o.TLS.TLSFilename, o.TLS.TLSHash), view(other, c.TLS.TLSFilename, c.TLS.TLSHash)))
+		if o.TLS.TLSFilename != c.TLS.TLSFilename || o.TLS.TLSHash != c.TLS.TLSHash || other != "same" {
+			js = append(js, fmt.Sprintf("%s: %s %s -> %s %s (%s)", n, filepath.Base(o.TLS.TLSFilename), short(o.TLS.TLSHash), filepath.Base(c.TLS.TLSFilename), short(c.TLS.TLSHash), other))
+		}
+	}
+	var files []string
+	for _, e := range ex {
+		w := strings.Fields(strings.SplitN(e.Cmd, "\n", 2)[0])
+		if len(w) >= 4 && w[0] == "set" && w[1] == "ssl" && w[2] == "cert" {
+			files = append(files, hx.Str(w[3]))
+		}
+	}
+	term := fmt.Sprintf("{| kd_pairs := %s; kd_structural := %s; kd_reload := %s; kd_files := %s |}", hx.List(pairs), hx.Bool(structural), hx.Bool(reload), hx.List(files))
+	return term, map[string]interface{}{"changed_pairs": js, "structural": structural, "reload": reload, "set_ssl_cert": len(files)}
+}
+
+func short(s string) string {
+	if len(s) > 8 {
+		return s[:8]
+	}
+	return s
+}
+
 // emitCase writes the correspondence case of one history (already run by the oracle: the
 // Coq steps were recorded then).
 func emitCase(cw *hx.CaseWriter, res *hx.Result, in input, obs []*stepObs) {
-	var steps []string
+	var steps, dyns []string
 	for _, o := range obs {
 		if o.coq == "" {
 			res.Count("corr_skipped_outside_model")
 			return
 		}
 		steps = append(steps, o.coq)
+		if o.dyn != "" {
+			dyns = append(dyns, o.dyn)
+			res.Count("corr_dyn_steps")
+		}
 	}
 	res.Count(fmt.Sprintf("corr_steps=%d", len(steps)))
 	var js []interface{}
 	for _, o := range obs {
-		js = append(js, map[string]interface{}{"lines": o.Lines, "served": o.Served})
+		js = append(js, map[string]interface{}{"lines": o.Lines, "served": o.Served, "dyn": o.DynJS, "cmds": o.Cmds, "reloads": o.Reloads})
 	}
 	cw.Add(func(id int) string {
-		return fmt.Sprintf("{| kid := %s; ksteps := %s |}", hx.N(id), hx.List(steps))
+		return fmt.Sprintf("{| kid := %s; ksteps := %s; kdyns := %s |}", hx.N(id), hx.List(steps), hx.List(dyns))
 	}, map[string]interface{}{"history": in.History, "describe": describe(in.History), "observed": js})
 }
